@@ -340,12 +340,14 @@ func XTotals() (urls, seeds, pre, arch, post, fin uint64, codes map[string]uint6
 // XReinit makes Init usable once per simulation iteration.
 func XReinit() {
 	globalStats = nil
+	globalPromStats = nil
+	prometheus.DefaultRegisterer = prometheus.NewRegistry() // Init registers its collectors again when the exporter is on
 	doOnce = *new(syncOnce)
 }
 `
 	_ = extra
 	extra2 := strings.Replace(extra, "doOnce = *new(syncOnce)", "doOnce = sync.Once{}", 1)
-	extra2 = strings.Replace(extra2, "package statsx\n", "package statsx\n\nimport \"sync\"\n", 1)
+	extra2 = strings.Replace(extra2, "package statsx\n", "package statsx\n\nimport (\n\t\"sync\"\n\n\t\"github.com/prometheus/client_golang/prometheus\"\n)\n", 1)
 	if pkg == "pausex" {
 		src := "// Code generated by stmtinstr; DO NOT EDIT.\n\npackage pausex\n\n// XReset gives every simulation iteration a fresh manager.\nfunc XReset() { manager = &pauseManager{} }\n"
 		tmp := filepath.Join(dst, ".zz_export.go.tmp")
